@@ -63,3 +63,49 @@ Theorem C04_nlnr_pairs_subset_nr : forall n p src dst r x y,
     route RT_NR n p src' dst' = Some r' /\ In (x, y) (legs src' r').
 Proof. exact nlnr_pairs_subset_nr. Qed.
 Print Assumptions C04_nlnr_pairs_subset_nr.
+
+(* ANY PLACEMENT OF THE RANKS ON THE NODES.  comm_router::next_hop reads the layout tables only; on the tables of any uniform
+   placement (Bcast.placement_ok: rank [rk a l] has on-node index l on node a; block, round-robin, a renumbered communicator)
+   the regenerated code computes [next_hop_placed], which is the block specification transported along the renumbering - and
+   so are all routes. *)
+From Ygm Require Import Bcast BcastCover RouterPlaced.
+Theorem C04_code_is_spec_on_any_placement : forall n p rk nd lc,
+  wf_np n p -> placement_ok n p rk nd lc -> forall me dest sch,
+  0 <= me < n * p -> 0 <= dest < n * p -> sch = RT_NONE \/ sch = RT_NR \/ sch = RT_NLNR ->
+  router_next_hop {| m_layout := placed_layout n p rk nd lc me |} (Some dest) (Some sch) = Some (next_hop_placed p rk nd lc sch me dest).
+Proof. exact Gen_router_placed. Qed.
+Print Assumptions C04_code_is_spec_on_any_placement.
+
+Theorem C04_routes_are_the_block_routes_renumbered : forall n p rk nd lc,
+  wf_np n p -> placement_ok n p rk nd lc -> forall sch src dst,
+  0 <= src < n * p -> 0 <= dst < n * p ->
+  route_placed p rk nd lc sch (to_pl p rk src) (to_pl p rk dst) = option_map (map (to_pl p rk)) (route sch n p src dst).
+Proof. exact route_transport. Qed.
+Print Assumptions C04_routes_are_the_block_routes_renumbered.
+
+(* delivery: under every scheme every message reaches its destination in at most three hops through ranks of the communicator *)
+Theorem C04_every_route_reaches_its_destination_on_any_placement : forall n p rk nd lc,
+  wf_np n p -> placement_ok n p rk nd lc -> forall sch src dst,
+  sch = RT_NONE \/ sch = RT_NR \/ sch = RT_NLNR -> 0 <= src < n * p -> 0 <= dst < n * p ->
+  exists r, route_placed p rk nd lc sch src dst = Some r /\ last r src = dst /\ (length r <= 3)%nat /\
+            (forall x, In x r -> 0 <= x < n * p).
+Proof. exact route_placed_reaches. Qed.
+Print Assumptions C04_every_route_reaches_its_destination_on_any_placement.
+
+(* NLNR: the off-node hop from node a to node b is made by one fixed pair of ranks, on any placement *)
+Theorem C04_nlnr_single_pair_on_any_placement : forall n p rk nd lc,
+  wf_np n p -> placement_ok n p rk nd lc -> forall src dst r x y,
+  0 <= src < n * p -> 0 <= dst < n * p ->
+  route_placed p rk nd lc RT_NLNR src dst = Some r -> In (x, y) (legs src r) -> ~ on_node_pl nd x y ->
+  let a := nd src in let b := nd dst in
+  x = rk a ((a + b) mod p) /\ y = rk b ((a + b) mod p).
+Proof. exact nlnr_placed_single_pair. Qed.
+Print Assumptions C04_nlnr_single_pair_on_any_placement.
+
+(* non-vacuity: round-robin placement of 3 nodes x 2 ranks (rank r on node r mod 3): the NLNR route 0 -> 5 (node 0 -> node 2)
+   goes through rank 0's node-mate with index (0 + 2) mod 2 = 0, i.e. rank 0 itself sends off-node to rank 2, which hands to 5 *)
+Example C04_round_robin_route :
+  route_placed 2 (fun a l => l * 3 + a) (fun r => r mod 3) (fun r => r / 3) RT_NLNR 0 5 = Some [2; 5] /\
+  route_placed 2 (fun a l => l * 3 + a) (fun r => r mod 3) (fun r => r / 3) RT_NLNR 3 2 = Some [0; 2] /\
+  router_next_hop {| m_layout := cyclic_layout 3 2 3 |} (Some 2) (Some RT_NLNR) = Some 0.
+Proof. vm_compute. repeat split; reflexivity. Qed.
